@@ -2238,6 +2238,12 @@ func genModule(c *ctx, o wgenOpts) (*wmodule, map[string]int) {
 			gl.init = g.lit(t, !o.negInit)
 			if t.k == "vec" {
 				g.f("private-init-vector")
+				if t.n >= 3 && c.chance(0.4) {
+					// vec4<T>(vec2<T>(a, b), c, d): a shorter vector among the components of the initialiser
+					inner := &wexpr{k: "cons", ty: tVec(2, t.elem), args: gl.init.args[:2], konst: gl.init.konst}
+					gl.init = &wexpr{k: "cons", ty: t, args: append([]*wexpr{inner}, gl.init.args[2:]...), konst: gl.init.konst}
+					g.f("private-init-nested-vector")
+				}
 			}
 			if hasNegLit(gl.init) {
 				g.f("private-init-negative")
